@@ -9,7 +9,9 @@ composition; complex sequence / structure / concentration triple; macrostate mem
 type, rate constant, units, condensed vs detailed); objects referenced by name are the identical
 singletons; statement kinds in `ignore` are skipped (= reading the document without them); every line read
 on its own yields the same object as inside the document; read_pil(path, is_file=True) equals
-read_pil(text)."""
+read_pil(text).  "released_before": [documents] (optional): in ONE session (no set_io_objects() in between) these
+documents are read one after the other, each result dropped and collected (failures ignored), and then `text`: the
+dictionary still equals `expected` - a name means what this document declares, whatever a released system called so."""
 import sys, os, json, gc, tempfile, warnings, logging
 warnings.simplefilter("ignore")
 logging.disable(logging.CRITICAL)
@@ -161,6 +163,30 @@ def check(case):
                 fails.append("second-document: a live complex declared again is another object")
         out5 = None
     out = None
+    # documents read and released before, in the same session: nothing of them may be remembered
+    rel = case.get("released_before")
+    if rel and exp is not None:
+        fresh()
+        for e in rel:
+            k6, out6 = outcome(lambda: objectio.read_pil(e))
+            out6 = None
+            gc.collect()
+        k6, out6 = outcome(lambda: objectio.read_pil(text))
+        if k6 == "err":
+            fails.append(f"released-before: read_pil raised {out6} on the consistent document after {len(rel)} other document(s) "
+                         f"had been read and released in the same session")
+        else:
+            d6 = describe(out6)
+            for f in ("domains", "strands", "complexes", "macrostates", "reactions"):
+                if d6[f] != exp[f]:
+                    if isinstance(d6[f], dict):
+                        bad = [k for k in sorted(set(list(d6[f]) + list(exp[f]))) if d6[f].get(k) != exp[f].get(k)][:3]
+                        detail = f" at {bad}: read {[d6[f].get(k) for k in bad]}, declared {[exp[f].get(k) for k in bad]}"
+                    else:
+                        detail = f": read {d6[f][:3]}, declared {exp[f][:3]}"
+                    fails.append(f"released-before: field {f} differs from the declaration after {len(rel)} other document(s) had "
+                                 f"been read and released in the same session{detail}")
+        out6 = None
     # the lines one by one in a fresh session, results held: the same objects by description
     if stmts and exp is not None:
         fresh()
